@@ -215,6 +215,62 @@ async fn run_hb_stall(log: &Log, seed: u64, i: u64) {
     quiesce().await;
 }
 
+/// The same three caller programs on a multi-threaded runtime, started together, no scheduling hooks: real
+/// parallelism (lock hand-over between threads) instead of chosen interleavings. The wire is read once at the end.
+async fn run_parallel(log: &'static Log, seed: u64, i: u64) {
+    let mut r = Rng::new(seed);
+    let scheme = *r.pick(&[anytls_rs::padding::DEFAULT_PADDING_SCHEME, "stop=0", "stop=1\n0=10-10", "stop=9\n1=20-40\n2=c,30-30\n3=5-9,c,100-120\n4=90-90"]);
+    let factory = Arc::new(PaddingFactory::new(scheme.as_bytes()).unwrap());
+    let rg = rig::client_rig(factory.clone(), None);
+    let mut obs = Obs { carry: Vec::new(), submitted: HashMap::new(), md5: factory.md5().to_string() };
+    let mut evs: Vec<Value> = Vec::new();
+    let wild = json!([-1, -1, -1, -1]);
+    // everything the tasks are going to submit is announced first (per-task order is what the validator checks)
+    for (name, prog) in programs(3) {
+        for op in &prog { match op {
+            Op::Start => evs.push(json!({"ev": "call", "task": name, "op": "start", "chunks": [[4, sid_cells(0), -1]]})),
+            Op::Open => evs.push(json!({"ev": "call", "task": name, "op": "popen", "chunks": [[1, wild, 0]]})),
+            Op::Data(l) => { obs.submitted.insert((2, *l), (0..*l).map(|i| (i as u8) ^ (*l as u8)).collect()); evs.push(json!({"ev": "call", "task": name, "op": "data", "chunks": [[2, wild, *l]]})); }
+            Op::Unbuf => {}
+        } }
+    }
+    // task A starts the client first (as Client does); then all three run at once
+    let _ = rg.sess.clone().start_client().await;
+    let barrier = Arc::new(tokio::sync::Barrier::new(3));
+    let failed = Arc::new(AtomicU64::new(0));
+    let mut hs = Vec::new();
+    for (_name, prog) in programs(3) {
+        let (sess, b, f) = (rg.sess.clone(), barrier.clone(), failed.clone());
+        hs.push(tokio::spawn(async move {
+            b.wait().await;
+            let mut my_sid = 0u32;
+            for op in prog { match op {
+                Op::Start => {}
+                Op::Open => match sess.open_stream().await { Ok((st, rx)) => { std::mem::forget(rx); my_sid = st.id(); } Err(_) => { f.fetch_add(1, Ordering::SeqCst); } },
+                Op::Unbuf => sess.disable_buffering(),
+                Op::Data(len) => { let data: Vec<u8> = (0..len).map(|i| (i as u8) ^ (len as u8)).collect(); if sess.write_data_frame(my_sid, Bytes::from(data)).await.is_err() { f.fetch_add(1, Ordering::SeqCst); } }
+            } }
+        }));
+    }
+    let hung = tokio::time::timeout(std::time::Duration::from_secs(20), async { for h in hs { let _ = h.await; } }).await.is_err();
+    tokio::time::sleep(std::time::Duration::from_millis(2)).await;
+    // the wire
+    let rec = rg.out.take_record();
+    obs.carry.extend_from_slice(&rec);
+    let (frames, trail) = parse_frames(&obs.carry);
+    for f in &frames {
+        let payload = &obs.carry[f.off + 7..f.off + 7 + f.len];
+        let eq = match f.cmd { 0 => true, 4 => { let m = StringMap::from_bytes(payload); m.get("padding-md5").map(|v| *v == obs.md5).unwrap_or(false) } 2 => obs.submitted.get(&(2, f.len)).map(|d| d[..] == *payload).unwrap_or(false), _ => f.len == 0 };
+        evs.push(json!({"ev": "wf", "hdr": hdr_cells(&obs.carry[f.off..]), "len": f.len, "eq": eq}));
+    }
+    if trail != 0 && !hung { evs.push(json!({"ev": "wbad", "trail": trail})); }
+    evs.push(json!({"ev": "ret", "task": "A", "op": "all", "ok": failed.load(Ordering::SeqCst) == 0}));
+    // F never ends the buffering itself: what it wrote may legitimately still be buffered if it ran last - flushed by the close below
+    evs.push(json!({"ev": "end", "panics": 0, "hung": if hung { 1 } else { 0 }}));
+    log.block_with_consts(json!({"kind": "parallel", "i": i, "scheme": scheme}), json!({"par": true}), evs);
+    let _ = tokio::time::timeout(std::time::Duration::from_secs(3), rg.sess.close()).await;
+}
+
 pub fn run(args: &Args, log: &Log) -> Result<(), String> {
     std::panic::set_hook(Box::new(|_| { PANICS.fetch_add(1, Ordering::SeqCst); }));
     let rt = rig::paused_rt();
@@ -235,6 +291,14 @@ pub fn run(args: &Args, log: &Log) -> Result<(), String> {
         // still valid, the harness reports ok=false only if a call fails
     });
     Sched::uninstall();
+    drop(local); drop(rt);
+    {
+        let rt = crate::net::rt();
+        let logp: &'static Log = crate::events::log();
+        let n = if args.tier == "thorough" { 20000 } else { 1500 };
+        rt.block_on(async { for i in 0..n { run_parallel(logp, args.seed.wrapping_mul(31337).wrapping_add(i), i).await; } });
+        rt.shutdown_timeout(std::time::Duration::from_millis(200));
+    }
     let _ = std::panic::take_hook();
     Ok(())
 }
